@@ -210,11 +210,14 @@ func c23(c *engine.Ctx) {
 		}
 		// id/buffer agreement after gzip
 		var idCmp *ssa.BinOp
+		var idVal ssa.Value
 		rpcErrID, _ := constInt(c, "mt", "RPCErrorTypeID")
 		engine.Instrs(hr, func(i ssa.Instruction) {
-			if b, ok := i.(*ssa.BinOp); ok && b.Op == token.EQL {
-				if k, isK := engine.ConstInt(b.Y); isK && k == rpcErrID {
-					idCmp = b
+			if b, ok := i.(*ssa.BinOp); ok {
+				if cm, isCmp := engine.CmpOf(b); isCmp && cm.Op == token.EQL {
+					if k, isK := engine.ConstInt(cm.Y); isK && k == rpcErrID {
+						idCmp, idVal = b, cm.X
+					}
 				}
 			}
 		})
@@ -227,7 +230,7 @@ func c23(c *engine.Ctx) {
 			for _, call := range engine.CallsTo(hr, false, "(*rpc.Engine).NotifyResult") {
 				bufV = engine.Args(call.Common())[2]
 			}
-			okAgree, why := idBufferAgree(idCmp.X, bufV)
+			okAgree, why := idBufferAgree(idVal, bufV)
 			c.Check(okAgree, "C23.R2", "handleResult/id-matches-buffer", idCmp.Pos(), "the type id tested and the buffer handed on must come from the same buffer on every path (after gzip unpacking the id must be re-peeked): %s", why)
 		}
 	}
